@@ -23,6 +23,12 @@ from .protocol import REQUEST_TIMEOUT, GeminiServerProtocol
 
 logger = get_logger(__name__)
 
+# After the response and our close_notify have been queued we half-close the
+# TCP connection and keep reading (and dropping) what the peer still sends for
+# at most this many seconds.  Closing a socket that has unread input makes the
+# kernel reset the connection and discard data it has not sent yet.
+CLOSE_LINGER_TIMEOUT = 5.0
+
 
 class TLSServerProtocol(asyncio.Protocol):
     """Wraps GeminiServerProtocol with manual PyOpenSSL TLS handling.
@@ -74,6 +80,12 @@ class TLSServerProtocol(asyncio.Protocol):
         # Timer that drops peers which never complete the TLS handshake
         self._handshake_timer: asyncio.TimerHandle | None = None
 
+        # Set once the inner protocol has closed its transport: input that
+        # still arrives is read and dropped until the peer closes or the
+        # linger timer fires
+        self._closing = False
+        self._linger_timer: asyncio.TimerHandle | None = None
+
     def connection_made(self, transport: asyncio.BaseTransport) -> None:
         """Initialize TLS connection when TCP connection is established.
 
@@ -109,6 +121,9 @@ class TLSServerProtocol(asyncio.Protocol):
             data: Raw encrypted bytes from the network.
         """
         if self.tls_conn is None or self.transport is None:
+            return
+        if self._closing:
+            # The response is on its way out: late input is consumed, not used
             return
 
         try:
@@ -275,8 +290,34 @@ class TLSServerProtocol(asyncio.Protocol):
             exc: Exception if connection closed due to error, None for clean close.
         """
         self._cancel_handshake_timer()
+        if self._linger_timer is not None:
+            self._linger_timer.cancel()
+            self._linger_timer = None
         if self.inner_protocol:
             self.inner_protocol.connection_lost(exc)
+
+    def _close_transport(self) -> None:
+        """Close the TCP connection once everything queued has been sent.
+
+        A real TCP transport is half-closed (FIN after the queued data) and
+        kept reading until the peer closes or CLOSE_LINGER_TIMEOUT has passed;
+        transports that cannot half-close are closed right away.
+        """
+        transport = self.transport
+        if transport is None or self._closing:
+            return
+        self._closing = True
+        can_write_eof = getattr(transport, "can_write_eof", None)
+        if callable(can_write_eof) and can_write_eof() is True:
+            try:
+                transport.write_eof()
+                loop = asyncio.get_running_loop()
+            except (OSError, RuntimeError):
+                transport.close()
+                return
+            self._linger_timer = loop.call_later(CLOSE_LINGER_TIMEOUT, transport.close)
+        else:
+            transport.close()
 
 
 class TLSTransportWrapper:
@@ -305,7 +346,7 @@ class TLSTransportWrapper:
         Args:
             data: Plaintext data to encrypt and send.
         """
-        if self.tls_protocol.tls_conn:
+        if self.tls_protocol.tls_conn and not self.tls_protocol._closing:
             self.tls_protocol.tls_conn.sendall(data)
             self.tls_protocol._flush_outgoing()
 
@@ -322,8 +363,7 @@ class TLSTransportWrapper:
                 self.tls_protocol._flush_outgoing()
             except SSL.Error:
                 pass
-        if self.tls_protocol.transport:
-            self.tls_protocol.transport.close()
+        self.tls_protocol._close_transport()
 
     def get_extra_info(self, name: str, default: Any = None) -> Any:
         """Provide transport info expected by GeminiServerProtocol.
@@ -350,6 +390,8 @@ class TLSTransportWrapper:
         Returns:
             True if the transport is closing, False otherwise.
         """
+        if self.tls_protocol._closing:
+            return True
         if self.tls_protocol.transport:
             return self.tls_protocol.transport.is_closing()
         return True
